@@ -174,7 +174,13 @@ func c09(c *Ctx) {
 				var forms []string
 				for _, fs := range flagStores {
 					if seen[fs.x] {
-						forms = append(forms, form(fs.v, env))
+						f := form(fs.v, env)
+						if v, isV := objOf(info, fs.v).(*types.Var); isV && f == "other" && !v.IsField() {
+							// a local built up in steps (flags := parent &^ S; if sampled { flags |= S }): its form on every path that is
+							// open under this decision
+							f = flagVarForm(g, info, v, fs.x, g.withLocals(env), func(e ast.Expr) string { return form(e, env) }, isSampledConst)
+						}
+						forms = append(forms, f)
 					}
 				}
 				sort.Strings(forms)
@@ -875,4 +881,90 @@ func validIDResult(ix *PkgIndex, fn *FuncInfo, res ast.Expr, x *GNode, depth int
 		}
 	}
 	return false, why
+}
+
+// flagVarForm: the form ("set" / "clear" / "other") of flag variable v when control reaches vertex at, over the paths that are
+// open under env. v starts from an expression classified by form and may then be updated by v |= S (set) / v &^= S (clear),
+// also spelled v = v | S / v = v &^ S; any other write makes it "other". Paths disagreeing give "other".
+func flagVarForm(g *FG, info *types.Info, v *types.Var, at *GNode, env Env, form func(ast.Expr) string, isS func(ast.Expr) bool) string {
+	state := map[*GNode]string{} // form on entry to the vertex; "" = not reached yet, "?" = unassigned
+	apply := func(x *GNode, in string) string {
+		out := in
+		if x.N == nil {
+			return out
+		}
+		inspectNoLit(x.N, func(n ast.Node) bool {
+			as, ok := n.(*ast.AssignStmt)
+			if !ok {
+				return true
+			}
+			for i, l := range as.Lhs {
+				if !sameVar(info, l, v) {
+					continue
+				}
+				switch {
+				case as.Tok == token.OR_ASSIGN && len(as.Rhs) == 1 && isS(as.Rhs[0]):
+					if out == "set" || out == "clear" {
+						out = "set"
+					} else {
+						out = "other"
+					}
+				case as.Tok == token.AND_NOT_ASSIGN && len(as.Rhs) == 1 && isS(as.Rhs[0]):
+					if out == "set" || out == "clear" {
+						out = "clear"
+					} else {
+						out = "other"
+					}
+				case (as.Tok == token.ASSIGN || as.Tok == token.DEFINE) && len(as.Lhs) == len(as.Rhs):
+					r := unparen(as.Rhs[i])
+					if be, isB := r.(*ast.BinaryExpr); isB && sameVar(info, be.X, v) && isS(be.Y) && (be.Op == token.OR || be.Op == token.AND_NOT) {
+						switch {
+						case out != "set" && out != "clear":
+							out = "other"
+						case be.Op == token.OR:
+							out = "set"
+						default:
+							out = "clear"
+						}
+					} else {
+						out = form(as.Rhs[i])
+					}
+				default:
+					out = "other"
+				}
+			}
+			return true
+		})
+		return out
+	}
+	merge := func(a, b string) string {
+		switch {
+		case a == "":
+			return b
+		case b == "" || a == b:
+			return a
+		}
+		return "other"
+	}
+	state[g.Entry] = "?"
+	work := []*GNode{g.Entry}
+	for len(work) > 0 {
+		x := work[len(work)-1]
+		work = work[:len(work)-1]
+		out := apply(x, state[x])
+		for _, e := range x.Succs {
+			if !edgeOpen(info, e, env) {
+				continue
+			}
+			if m := merge(state[e.To], out); m != state[e.To] {
+				state[e.To] = m
+				work = append(work, e.To)
+			}
+		}
+	}
+	s := state[at]
+	if s == "" || s == "?" {
+		return "other"
+	}
+	return s
 }
